@@ -4,6 +4,9 @@ import PprofVerif.Model.LegacyBase
 
 * document model, printer and documented meaning of a trailing memory map (`/proc/<pid>/maps`
   lines and the brief `start-end[:] [perm] [file] [(@offset)] [buildid]` lines);
+* the variation `parseProcMapsFromScanner` tolerates around the entries: a glog prefix
+  (`… file.cc:123] `) on a line (`removeLoggingInfo`), attribute lines `name=value` and `$name`
+  references in later lines (`strings.NewReplacer`);
 * `parseMappingEntry` / `parseProcMapsFromScanner` for that grammar;
 * `massageMappings`, `remapLocationIDs`, `remapMappingIDs` (profile.go / legacy_profile.go) on
   the id-based profile model, and `finish`, which turns raw samples (final addresses, values,
@@ -86,19 +89,116 @@ def MapEntry.mapping (e : MapEntry) : Option Mapping :=
   | .brief _ perm file off bid =>
     if perm.all Perm.exec then some (mk (off.getD 0) (file.getD []) (bid.getD [])) else none
 
-/-- a memory-map section: entries (each preceded by filler lines), trailing fillers. -/
+/-! ### lines of a section: entries, `$name` references, attribute lines, glog prefixes -/
+/-- a glog prefix `<text>:<line>] ` (e.g. `W1220 15:07:15.201776    8272 logger.cc:12036] `) -/
+structure LogPrefix where
+  text : Str
+  line : Nat
+  deriving Repr, DecidableEq, Inhabited
+
+def LogPrefix.print (p : LogPrefix) : Str := p.text ++ 58 :: (dec p.line ++ [93, 32])
+
+def isBracket (b : UInt8) : Bool := b.toNat == 91 || b.toNat == 93
+
+def LogPrefix.wf (p : LogPrefix) : Bool := p.text != [] && p.text.all (fun b => isPrint b && !isBracket b)
+
+def optLog : Option LogPrefix → Str
+  | none => []
+  | some p => p.print
+
+def MapForm.setFile (f : Str) : MapForm → MapForm
+  | .proc perm off dmaj dmin inode _ => .proc perm off dmaj dmin inode (some f)
+  | .brief colon perm _ off bid => .brief colon perm (some f) off bid
+
+/-- the entry with its file field replaced -/
+def MapEntry.withFile (e : MapEntry) (f : Str) : MapEntry := { e with form := e.form.setFile f }
+
+inductive MapLine where
+  /-- a plain entry -/
+  | entry (log : Option LogPrefix) (e : MapEntry)
+  /-- an entry whose file field is written `$<name><suffix>` (`e`'s own file field is not used) -/
+  | entryRef (log : Option LogPrefix) (e : MapEntry) (name suffix : Str)
+  /-- `<name>=<value>` / `<name> = <value>`: later `$<name>` stand for `<value>` -/
+  | attr (log : Option LogPrefix) (indent : Nat) (name : Str) (spaced : Bool) (value : Str)
+  deriving Repr, DecidableEq, Inhabited
+
+def MapLine.print : MapLine → Str
+  | .entry log e => optLog log ++ e.print
+  | .entryRef log e name suffix => optLog log ++ (e.withFile (36 :: (name ++ suffix))).print
+  | .attr log indent name spaced value =>
+    optLog log ++ (sp indent ++ (name ++ ((if spaced then asc " = " else asc "=") ++ value)))
+
+/-- the attributes assigned so far, in order: name ↦ value -/
+abbrev MapEnv := List (Str × Str)
+
+def MapEnv.lookup (env : MapEnv) (name : Str) : Option Str := (env.find? (fun p => p.1 == name)).map (·.2)
+
+/-- attribute names: `\w+` not starting with a hex digit (a line starting with two hex digits
+reads as an address range) -/
+def attrNameOK (n : Str) : Bool :=
+  n.all isWord && (match n with | b :: _ => !isXDigit b | [] => false)
+
+/-- attribute values: printable, no blanks, no `$` -/
+def attrValueOK (v : Str) : Bool := v != [] && v.all (fun b => isPrint b && b.toNat != 32 && b.toNat != 36)
+
+/-- the first bracket of the text, if any, is `[` — so the text cannot complete a glog prefix
+`…:<digits>] ` -/
+def firstBracketOK (s : Str) : Bool :=
+  match s.dropWhile (fun b => !isBracket b) with
+  | b :: _ => b.toNat == 91
+  | [] => true
+
+/-- what follows `$<name>`: nothing, or text starting with a byte that cannot continue a name -/
+def suffixOK (s : Str) : Bool := match s with | b :: _ => !isWord b | [] => true
+
+def MapForm.file : MapForm → Option Str
+  | .proc _ _ _ _ _ file => file
+  | .brief _ _ file _ _ => file
+
+def MapLine.wfIn (env : MapEnv) : MapLine → Bool
+  | .entry log e => log.all LogPrefix.wf && e.wf && e.form.file.all firstBracketOK
+  | .entryRef log e name suffix =>
+    log.all LogPrefix.wf && attrNameOK name && suffixOK suffix && firstBracketOK suffix &&
+    (match env.lookup name with
+     | some v => (e.withFile (v ++ suffix)).wf
+     | none => false)
+  | .attr log _ name _ value =>
+    log.all LogPrefix.wf && attrNameOK name && attrValueOK value && firstBracketOK value &&
+    env.all (fun p => !(p.1.isPrefixOf name) && !(name.isPrefixOf p.1))
+
+/-- documented meaning of one line: the environment after it and the mapping it stands for.
+A `$name` stands for the value assigned to `name` earlier in the section. -/
+def MapLine.step (env : MapEnv) : MapLine → MapEnv × Option Mapping
+  | .entry _ e => (env, e.mapping)
+  | .entryRef _ e name suffix =>
+    (env, match env.lookup name with
+          | some v => (e.withFile (v ++ suffix)).mapping
+          | none => (e.withFile (36 :: (name ++ suffix))).mapping)
+  | .attr _ _ name _ value => (env ++ [(name, value)], none)
+
+/-- a memory-map section: lines (each preceded by filler lines), trailing fillers. -/
 structure MapSection where
-  entries : List (List Filler × MapEntry)
+  entries : List (List Filler × MapLine)
   post : List Filler
   deriving Repr, DecidableEq, Inhabited
 
-def MapSection.wf (m : MapSection) : Bool :=
-  m.entries.all (fun p => p.1.all Filler.wf && p.2.wf) && m.post.all Filler.wf
+def wfLines : MapEnv → List (List Filler × MapLine) → Bool
+  | _, [] => true
+  | env, p :: r => p.1.all Filler.wf && p.2.wfIn env && wfLines (p.2.step env).1 r
+
+def MapSection.wf (m : MapSection) : Bool := wfLines [] m.entries && m.post.all Filler.wf
 
 def MapSection.bodyLines (m : MapSection) : List Str :=
   m.entries.flatMap (fun p => printFillers p.1 ++ [p.2.print]) ++ printFillers m.post
 
-def MapSection.mappings (m : MapSection) : List Mapping := m.entries.filterMap (fun p => p.2.mapping)
+def mappingsOf : MapEnv → List (List Filler × MapLine) → List Mapping
+  | _, [] => []
+  | env, p :: r =>
+    match (p.2.step env).2 with
+    | some m => m :: mappingsOf (p.2.step env).1 r
+    | none => mappingsOf (p.2.step env).1 r
+
+def MapSection.mappings (m : MapSection) : List Mapping := mappingsOf [] m.entries
 
 def sentinelMemoryMap : Str := asc "--- Memory map: ---"
 def sentinelMappedLibraries : Str := asc "MAPPED_LIBRARIES:"
@@ -214,14 +314,61 @@ def parseMappingEntry (l : Str) : EntryResult :=
       | none => .unrecognized
     | _, _ => .unrecognized
 
-/-- `parseProcMapsFromScanner`: every remaining line; unrecognised lines are ignored.  The
-`$attr` substitution and the log-prefix removal are not modelled (identity on printed lines). -/
-def parseProcMaps : List Str → List Mapping
-  | [] => []
-  | l :: r =>
-    match parseMappingEntry l with
-    | .mapping m => m :: parseProcMaps r
-    | _ => parseProcMaps r
+/-- `removeLoggingInfo`: logInfoRE `^[^\[\]]+:[0-9]+]\s` — the text before the first bracket must
+be `<one or more bytes>:<digits>`, the bracket a `]`, followed by a blank; the match is cut off. -/
+def removeLoggingInfo (line : Str) : Str :=
+  let pre := line.takeWhile (fun b => !isBracket b)
+  match line.dropWhile (fun b => !isBracket b) with
+  | c :: w :: tail =>
+    if c.toNat == 93 && isReSpace w then
+      match pre.reverse.dropWhile isDigit with
+      | k :: _ :: _ => if k.toNat == 58 && !(pre.reverse.takeWhile isDigit).isEmpty then tail else line
+      | _ => line
+    else line
+  | _ => line
+
+/-- `strings.SplitN(line, "=", 2)` when there is a `=` -/
+def splitEq : Str → Option (Str × Str)
+  | [] => none
+  | b :: s => if b.toNat == 61 then some ([], s) else (splitEq s).map (fun (k, v) => (b :: k, v))
+
+/-- the first pair, in argument order, whose key is a prefix of `s`: key length and value
+(`strings.Replacer`: "comparisons are done in argument order"; of two equal keys the first wins). -/
+def replaceFirst : List (Str × Str) → Str → Option (Nat × Str)
+  | [], _ => none
+  | (k, v) :: ps, s =>
+    match stripPrefix k s with
+    | some _ => some (k.length, v)
+    | none => replaceFirst ps s
+
+/-- `strings.NewReplacer(pairs…).Replace(s)` for non-empty keys: left to right, no overlaps;
+`skip` bytes still belong to the key matched last. -/
+def replaceAllAux (ps : List (Str × Str)) : Nat → Str → Str
+  | _, [] => []
+  | n+1, _ :: s => replaceAllAux ps n s
+  | 0, b :: s =>
+    match replaceFirst ps (b :: s) with
+    | some (klen, v) => v ++ replaceAllAux ps (klen - 1) s
+    | none => b :: replaceAllAux ps 0 s
+
+def replaceAll (ps : List (Str × Str)) (s : Str) : Str := replaceAllAux ps 0 s
+
+/-- `parseProcMapsFromScanner`: every remaining line, after `removeLoggingInfo` and the `$attr`
+replacements collected so far; a line that is not a mapping but contains `=` defines an
+attribute; other unrecognised lines are ignored. -/
+def parseProcMapsGo : List (Str × Str) → List Str → List Mapping
+  | _, [] => []
+  | ps, l :: r =>
+    let line := replaceAll ps (removeLoggingInfo l)
+    match parseMappingEntry line with
+    | .mapping m => m :: parseProcMapsGo ps r
+    | .skip => parseProcMapsGo ps r
+    | .unrecognized =>
+      match splitEq line with
+      | some (k, v) => parseProcMapsGo (ps ++ [(36 :: trimSpace k, trimSpace v)]) r
+      | none => parseProcMapsGo ps r
+
+def parseProcMaps (ls : List Str) : List Mapping := parseProcMapsGo [] ls
 
 /-- `parseAdditionalSections`: skip to the sentinel (the current line counts), then read the map. -/
 def skipToSentinel : List Str → List Str
